@@ -36,6 +36,8 @@ def mk_entry(T, k, rate, fname):
 
 def worker(cfg, tier='quick'):
     """cfg = 'split k=<k> parts=<a+b+c> other=<m> order=<fwd|rev> files=<same|separate>'"""
+    if cfg.startswith('files'):
+        return w_files(cfg, tier)
     import panqec.analysis as an
     install(an)
     parts = dict(p.split('=') for p in cfg.split()[1:])
@@ -164,8 +166,126 @@ def worker(cfg, tier='quick'):
     return col.result()
 
 
+FILE_KINDS = ['dir-json', 'dir-gz', 'zip', 'merged-json', 'dir-two-files']
+
+
+def write_layout(root, kinds, order, records):
+    """Write the records (one list of trial records per path) in the chosen container kinds; returns paths."""
+    import gzip
+    import os
+    import zipfile
+    paths = []
+    for i, (kind, recs) in enumerate(zip(kinds, records)):
+        if kind == 'dir-json':
+            d = os.path.join(root, f'p{i}')
+            os.makedirs(d)
+            json.dump(recs, open(os.path.join(d, 'results.json'), 'w'))
+            paths.append(d)
+        elif kind == 'dir-gz':
+            d = os.path.join(root, f'p{i}')
+            os.makedirs(d)
+            with gzip.open(os.path.join(d, 'results.json.gz'), 'wb') as g:
+                g.write(json.dumps(recs).encode())
+            paths.append(d)
+        elif kind == 'dir-two-files':
+            d = os.path.join(root, f'p{i}', 'sub')
+            os.makedirs(d)
+            half = max(1, len(recs) // 2)
+            json.dump(recs[:half], open(os.path.join(d, 'a.json'), 'w'))
+            with gzip.open(os.path.join(d, 'b.json.gz'), 'wb') as g:
+                g.write(json.dumps(recs[half:]).encode())
+            paths.append(os.path.join(root, f'p{i}'))
+        elif kind == 'zip':
+            z = os.path.join(root, f'p{i}.zip')
+            with zipfile.ZipFile(z, 'w') as zf:
+                zf.writestr('inner/results.json', json.dumps(recs))
+            paths.append(z)
+        else:
+            f = os.path.join(root, f'p{i}.json')
+            json.dump(recs, open(f, 'w'))
+            paths.append(f)
+    return [paths[j] for j in order]
+
+
+def w_files(cfg, tier):
+    """File discovery and container formats (I/O): the layout (how many paths, which container kind each,
+    in which order they are passed) is solver-chosen and REALISED; the trial contents are fixed; the real
+    Analysis(paths) pipeline runs on real temporary files and is compared with the pooled raw counts."""
+    import shutil
+    import tempfile
+    import panqec.analysis as an
+    k = 1
+    npaths = int(cfg.split('paths=')[1])
+    col = hz.Collector(cfg)
+    col.encoded(an.Analysis.find_files, an.Analysis.read_files, an.Analysis.__init__)
+    rng = np.random.default_rng(7)
+    sizes = [2, 3, 1][:npaths]
+    records, raw = [], {0.1: [0, 0], 0.2: [0, 0]}
+    for i, T in enumerate(sizes):
+        recs = []
+        for rate in (0.1, 0.2):
+            e = mk_entry(T + (rate == 0.2), k, rate, 'x')
+            n_t = T + (rate == 0.2)
+            succ = [bool(rng.integers(0, 2)) for _ in range(n_t)]
+            e['results']['success'] = succ
+            e['results']['codespace'] = [True] * n_t
+            e['results']['effective_error'] = [[0, 0] if s_ else [1, 0] for s_ in succ]
+            raw[rate][0] += n_t
+            raw[rate][1] += n_t - sum(succ)
+            recs.append(e)
+        records.append(recs)
+    eng = Engine(name=cfg, max_paths=4000)
+    import itertools as it
+    perms = list(it.permutations(range(npaths)))
+    with eng:
+        kinds_v = [eng.integer(f'kind{i}', 0, len(FILE_KINDS) - 1) for i in range(npaths)]
+        perm_v = eng.integer('order', 0, len(perms) - 1)
+
+        def fn():
+            kinds = [FILE_KINDS[int(v)] for v in kinds_v]
+            order = perms[int(perm_v)]
+            root = tempfile.mkdtemp(prefix='c15files_')
+            try:
+                paths = write_layout(root, kinds, order, records)
+                a = an.Analysis(paths if len(paths) > 1 else paths[0], verbose=False)
+                df = a.get_results()
+                got = {float(r_['error_rate']): (int(r_['n_trials']), int(r_['n_fail']), float(r_['p_est']))
+                       for _, r_ in df.iterrows()}
+            finally:
+                shutil.rmtree(root, ignore_errors=True)
+            ok = all(rate in got and got[rate][0] == raw[rate][0] and got[rate][1] == raw[rate][1] and
+                     abs(got[rate][2] - raw[rate][1] / raw[rate][0]) < 1e-12 for rate in raw) and len(got) == 2
+            return ok, dict(kinds=kinds, order=list(order), got={str(k_): v for k_, v in got.items()})
+        ps = eng.explore(fn)
+    col.absorb(eng)
+    bad = []
+    w = [None]
+    for p in ps:
+        if p.exc is not None:
+            bad.append(z3_and(p.pc))
+            if w[0] is None:
+                w[0] = dict(layout='exception', error=f'{type(p.exc).__name__}: {p.exc}', npaths=npaths)
+            continue
+        ok, info = p.value
+        bad.append(z3_and(p.pc + [z3.BoolVal(not ok)]))
+        if not ok and w[0] is None:
+            w[0] = dict(info, npaths=npaths, layout='files')
+    col.prove('C15/files/pooled-counts-independent-of-container-layout-and-path-order', eng.base, z3_or(bad),
+              lambda m: w[0], f'{len(ps)} realised layouts: {npaths} paths x container kinds {FILE_KINDS} x path orders; '
+              f'pooled raw counts {raw}')
+    return col.result()
+
+
 def replay(path):
     """Concrete trial contents through the real pipeline (real numpy arrays)."""
+    with open(path) as f_:
+        d_ = json.load(f_)
+    if d_['config'].startswith('files'):
+        res = w_files(d_['config'], 'quick')
+        bad_ = any(o['oid'] == d_['oid'] and o['verdict'] == 'sat' for o in res['obs'])
+        print('layout', d_['witness'])
+        print('REPLAY', 'reproduced' if bad_ else 'not-reproduced', d_['oid'], d_['config'])
+        return 0
     import panqec.analysis as an
     with open(path) as f:
         d = json.load(f)
@@ -263,6 +383,7 @@ def configs(tier):
                             specs.append((k, '+'.join(map(str, comp)), order, files))
     for k, comp, order, files in specs:
         out.append(f'split k={k} parts={comp} other=1 order={order} files={files}')
+    out += ['files paths=1', 'files paths=2'] + (['files paths=3'] if tier != 'quick' else [])
     return out
 
 
@@ -284,7 +405,8 @@ def main(argv=None):
         bounds=dict(trials='T <= 3 (quick) / <= 4 (thorough) pooled trials + 1 trial at a second parameter point',
                     k='1, 2', splits='all compositions into <= 3 entries, both entry orders, separate files / one merged list'),
         stubs=['Analysis.calculate_thresholds -> no-op (threshold fitting is C16, not applicable)'],
-        outside=['file discovery and container formats (plain / gzip / zip): I/O', 'the merge-results CLI',
+        outside=['file discovery and container formats are I/O: explored only as a REALISED finite list of layouts on '
+                 'real temporary files (the solver enumerates it)', 'the merge-results CLI',
                  'threshold fits'])
 
 
